@@ -425,3 +425,21 @@ ADDENDA_R8T = {
     "C17": ("corrected reference of R17.1", "the <> form walks the -S directories itself, as given only for non-local names; nothing is left to DSearchPath (found F-C17c - the old reference had accepted the defective form)", "probe-sequence table"),
     "C20": ("R20.12", "a string is built from a module definition's `const char *` field only behind a test of the same field (found F-C20d)", "same-expression null test"),
 }
+
+
+# Round 9 (DESIGN.md section 8).
+ADDENDA_R9 = {
+    "C02": ("R02.12", "a dispatch written on a packed temporary argument tuple is asked to release it before every return", "emission-order analysis within a block plus flag-argument inspection"),
+    "C05": ("R05.12", "the signature key that identifies overloads unwraps only const references", "gated reachability on a predicate of the same argument"),
+    "C06": ("R06.16", "a member that is_less tests against null is also ordered at pointer level (else T[] and T[N] are one interned type)", "sibling agreement between is_equal and is_less on nullable members"),
+    "C07": ("R07.16", "the octal digits share one arm of the escape switch; the simple escapes return the standard's values", "switch-arm grouping and a frozen table"),
+    "C09": ("R09.12", "#ifdef, #ifndef and defined() all decide through is_manifest_defined()", "single-judge rule (who may search the macro table)"),
+    "C10": ("R10.11", "each base class contributes its virtual functions through a list of its own", "declaration placement of the argument of the recursive call"),
+    "C13": ("R13.7", "the global flag survives losing the merge", "provenance of a saved value across an assignment of *this"),
+    "C15": ("R15.28, R15.29", "lookups that follow using-directives carry a visited set (found F-C15aa, repaired); a CPPManifest the push_macro stack may share is never freed", "must-pass-through of `visited.insert(this).second`; who-may-delete"),
+    "C16": ("R16.6", "whether an inter-library edge is recorded does not depend on the state of the map under construction", "condition-read analysis"),
+    "C17": ("chdir clause of R17.9", "no make_absolute() can run after main() changed directory", "reachability from the chdir() call"),
+    "C18": ("R18.9", "the digit generator's interval width is taken after both boundaries were pulled inwards", "must-pass-through"),
+    "C19": ("R19.r", "no output is moved into place by a call whose result is ignored", "discarded-result rule on delivery calls, with a built-in positive example"),
+    "C20": ("R20.13", "on a merge, the database's lists receive the surviving index, never the discarded one", "value provenance behind a gate"),
+}
